@@ -15,8 +15,9 @@ outer result `none` ("overflow").  Instances:
 
 `Proofs/C10W4Bounded.lean` proves that a run which does not abort under `addB M` returns the same
 result under `addInt` and under `addW M`.  The driver runs the `addB M` model (M = the largest value
-of the cost type of the request for which arithmetic is exact: `u32::MAX`, `u64::MAX`, `2^24` for f32,
-`2^53` for f64, in the unit of the request) and thereby checks the no-overflow hypothesis per call.
+of the cost type of the request for which arithmetic is exact: `T::MAX` of an integer type `T` (costs are
+non-negative, so a signed type is used on `0 ..= T::MAX`; `usize` = 64 bits), `2^24` for f32, `2^53` for f64, in the
+unit of the request) and thereby checks the no-overflow hypothesis per call.
 -/
 namespace PetgraphModel.SP
 open PetgraphModel
@@ -152,9 +153,15 @@ def kShortestPathG (add : Add) (pop : Pop) (v : View) (s : Nat) (goal : Option N
 request (`q` types: the unit is 1/8, so the bound is the same number of units) -/
 def costMax (ty : String) : Option Int :=
   if ty == "u32" then some 4294967295
-  else if ty == "u64" then some 18446744073709551615
-  else if ty == "f64" || ty == "f64q" then some 9007199254740992
+  else if ty == "u64" || ty == "usize" then some 18446744073709551615
+  else if ty == "f64" || ty == "f64q" || ty == "f64inf" then some 9007199254740992
   else if ty == "f32" || ty == "f32q" then some 16777216
+  else if ty == "u8" then some 255
+  else if ty == "u16" then some 65535
+  else if ty == "i8" then some 127
+  else if ty == "i16" then some 32767
+  else if ty == "i32" then some 2147483647
+  else if ty == "i64" || ty == "isize" then some 9223372036854775807
   else none
 
 end PetgraphModel.SP
